@@ -304,9 +304,12 @@ pub fn judge_table(c: &Case) -> Obs {
     }
     let cell_matches = |cell: &str, full: &str| -> bool {
         // the cell has one leading space and is padded; a cut cell ends with an ellipsis
+        let raw_width = cell.chars().count();
         let cell = cell.strip_prefix(' ').unwrap_or(cell).trim_end();
         match cell.strip_suffix('…') {
-            Some(prefix) => full.starts_with(prefix) && full.chars().count() > prefix.chars().count(),
+            // cutting is a concession to the column width only: the whole text (after the leading
+            // and one trailing space) must not have fitted into the cell
+            Some(prefix) => full.starts_with(prefix) && full.chars().count() > prefix.chars().count() && 2 + full.trim_end().chars().count() > raw_width,
             None => cell == full.trim_end(),
         }
     };
@@ -359,9 +362,21 @@ impl Prop for C17 {
         let n = ctx.share(ctx.tier.pick(1_500, 20_000));
         drive(ctx, rep, "tables", cases(), n, &mut |c: &Case| judge_table(c));
     }
+    fn fuzz_strategy(&self) -> Option<BoxedStrategy<Value>> {
+        Some(crate::fuzzmode::jv(cases()))
+    }
     fn replay(&self, _ctx: &Ctx, case: &Value) -> Obs {
         match serde_json::from_value::<Case>(case.clone()) {
-            Ok(c) => judge_case(&c),
+            Ok(c) => {
+                // a saved case is judged by both streams' oracles (the address walk and the table)
+                let o = judge_case(&c);
+                if o.fail.is_some() {
+                    o
+                } else {
+                    let t = judge_table(&c);
+                    if t.fail.is_some() { t } else { o }
+                }
+            }
             Err(e) => Obs::fail("C17:bad-replay-file", format!("cannot parse case: {e}")),
         }
     }
